@@ -8,6 +8,8 @@ from vlib.qtyops import frs, num_value
 
 PID = 'C19'
 PROPERTY_FILE = 'Properties/C19.v'
+# generated model parts (translate/) this property's model / proofs really depend on
+GEN_DEPS = ['QuantityImpl']
 MODEL_TARGETS = ['Corr/HashCorr.vo']
 PROOF_TARGETS = ['Proofs/C19Proofs.vo', 'Proofs/C07Proofs.vo']
 COQ_HEADER = ("From QV Require Import Model.Num Model.Rounding Model.Quantity Model.Rates "
